@@ -107,6 +107,104 @@ def seq_property(note=None, extra_assumptions=()):
     return f
 
 
+# ---------------------------------------------------------------------- E-LOOM
+
+ASSUME_LOOM = [
+    "loom scenarios: 2-3 threads, 1-3 operations each; exhaustive (DPOR) only up to the stated preemption bound per scenario; a duration cap that was hit is reported per scenario",
+    "the crate's generic code is instantiated with a RawMutex built on loom::sync::Mutex (every internal lock/unlock is a scheduling point); parking_lot itself, the AtomicUsize handle counters / alloc::sync::Arc of the shared flavours and the timer clock are std objects that loom does not intercept (no weak-memory exploration for them); non-atomic accesses inside the library are not routed through loom::cell, so loom cannot flag a data race inside the library",
+]
+WAKE_PROPS = {"C03", "C06", "C10", "C11", "C12", "C13", "C14", "C15"}
+UNBOUNDED_OK = {"sem_mixed_fair", "sem_mixed_unfair", "sem_timeout_fair", "sem_timeout_unfair", "sem_shared_mixed", "event_set_reset_set",
+                "mpmc_abandon_cap1", "mpmc_last_sender_closes", "timer_two_waiters", "oneshot_competing", "broadcast_all"}
+
+
+def loom_scenarios(ctx, pid):
+    exe = os.path.join(ctx.root, "target", "release", "filoom")
+    p = subprocess.run([exe, "list"], cwd=ctx.root, env=ctx.env, stdout=subprocess.PIPE, text=True)
+    out = []
+    for line in p.stdout.splitlines():
+        name, props = line.split()
+        thorough_only = props.startswith("thorough:")
+        props = props.replace("thorough:", "").split(",")
+        if pid in props and (ctx.tier == "thorough" or not thorough_only):
+            out.append((name, props))
+    return out
+
+
+def loom_attribution(name, props, msg):
+    import re
+    explicit = set(re.findall(r"\bC\d\d\b", msg))
+    if explicit:
+        return explicit
+    if "deadlock" in msg:
+        return WAKE_PROPS & set(props)
+    r = {"C01"}
+    if name.startswith("mutex"):
+        r.add("C02")
+    return r
+
+
+def loom_part(ctx, pid):
+    exe = os.path.join(ctx.root, "target", "release", "filoom")
+    ldir = os.path.join(ctx.out, "loom")
+    os.makedirs(ldir, exist_ok=True)
+    runs, viols = [], []
+    for name, props in loom_scenarios(ctx, pid):
+        bounds = ["2"] if ctx.tier == "quick" else (["3", "none"] if name in UNBOUNDED_OK else ["3"])
+        for pb in bounds:
+            ck = os.path.join(ldir, "%s.pb%s.%s.checkpoint.json" % (name, pb, pid))
+            if os.path.exists(ck):
+                os.remove(ck)
+            cap = "120" if ctx.tier == "quick" else "900"
+            cmd = [exe, "run", name, "--pb", pb, "--max-secs", cap]
+            p, wall = ctx.run_engine(cmd, int(cap) + 120, "filoom run %s" % name, env=ctx.env)
+            if p.returncode != 0:
+                # re-run with checkpointing to leave the failing schedule on disk (writing a
+                # checkpoint per iteration is slow, so it is only done after a failure)
+                env = dict(ctx.env, LOOM_CHECKPOINT_FILE=ck, LOOM_CHECKPOINT_INTERVAL="1")
+                p, wall = ctx.run_engine(cmd, 4 * (int(cap) + 120), "filoom run %s (checkpointing)" % name, env=env)
+            ok = [l for l in p.stdout.splitlines() if l.startswith("LOOM-OK")]
+            if p.returncode == 0 and ok:
+                f = dict(kv.split("=") for kv in ok[0].split()[1:])
+                runs.append({"scenario": name, "preemption_bound": pb, "schedules": int(f["schedules"]), "wall_s": float(f["wall_s"]), "duration_cap_hit": f["duration_cap_hit"] == "true", "result": "ok"})
+                if os.path.exists(ck):
+                    os.remove(ck)
+                continue
+            err = p.stderr or ""
+            lines = err.splitlines()
+            msg = ""
+            for i, l in enumerate(lines):
+                if "panicked at" in l and i + 1 < len(lines):
+                    msg = lines[i + 1].strip()
+                    break
+            if not msg:
+                ctx.machinery("filoom run %s exited with status %s without a loom failure message:\n%s" % (name, p.returncode, "\n".join(lines[-15:])))
+            who = loom_attribution(name, props, msg)
+            runs.append({"scenario": name, "preemption_bound": pb, "schedules": None, "wall_s": round(wall, 2), "result": "FAILED: " + msg[:300], "attributed_to": sorted(who)})
+            if pid in who:
+                viols.append({"engine": "E-LOOM", "property": pid, "scenario": name, "preemption_bound": pb, "checkpoint_file": ck, "message": msg[:600],
+                              "signature": "loom|%s|%s" % (name, msg[:80]),
+                              "replay_hint": "LOOM_CHECKPOINT_FILE=%s %s run %s --pb %s   (replays exactly the failing schedule)" % (ck, exe, name, pb),
+                              "summary": "loom scenario %s (preemption bound %s): %s" % (name, pb, msg[:300])})
+            break
+    cov = {"scenarios": runs, "schedules": sum(r["schedules"] or 0 for r in runs)}
+    return cov, viols
+
+
+def seq_loom_property(note=None):
+    def f(ctx, pid):
+        doc, wall = run_seq(ctx, pid)
+        cov, viols = seq_part(ctx, pid, doc)
+        lcov, lviols = loom_part(ctx, pid)
+        cov["loom"] = lcov
+        cov["traces_validated_against_impl"] += lcov["schedules"]
+        cov["summary"] = "states=%d transitions=%d exhaustive=%s loom_schedules=%d (%d scenarios)" % (cov["states"], cov["transitions"], cov["exhaustive"], lcov["schedules"], len(lcov["scenarios"]))
+        cov["explanation"] = note or ""
+        ev = {"level": "model_checking", "coverage": cov, "assumptions": ASSUME_SEQ + ASSUME_LOOM}
+        return ev, viols + lviols
+    return f
+
+
 # ---------------------------------------------------------------------- E-TYPE
 
 def run_typematrix(ctx_root, env):
@@ -164,6 +262,18 @@ def do_replay(root, env, path, run_engine):
         exe = os.path.join(root, "target", "release", "fiverif")
         p = subprocess.run([exe, "replay", "--file", path], cwd=root, env=env)
         return p.returncode
+    if eng == "E-LOOM":
+        exe = os.path.join(root, "target", "release", "filoom")
+        e2 = dict(env, LOOM_CHECKPOINT_FILE=doc["checkpoint_file"])
+        p = subprocess.run([exe, "run", doc["scenario"], "--pb", doc["preemption_bound"]], cwd=root, env=e2, stdout=subprocess.PIPE, stderr=subprocess.PIPE, text=True)
+        if p.returncode == 0:
+            print("replay: the recorded schedule no longer fails")
+            return 0
+        for l in (p.stderr or "").splitlines():
+            if "panicked at" in l or "deadlock" in l or "C0" in l or "C1" in l:
+                print(l[:300])
+        print("replay: violation reproduced (loom scenario %s)" % doc["scenario"])
+        return 1
     if eng == "E-TYPE":
         import typerules
         out, err = run_typematrix(root, env)
@@ -183,21 +293,21 @@ def do_replay(root, env, path, run_engine):
 
 
 PROPS = {
-    "C01": seq_property(),
-    "C02": seq_property(),
-    "C03": seq_property(),
+    "C01": seq_loom_property(),
+    "C02": seq_loom_property(),
+    "C03": seq_loom_property(),
     "C04": seq_property(),
-    "C05": seq_property(),
-    "C06": seq_property(),
+    "C05": seq_loom_property(),
+    "C06": seq_loom_property(),
     "C07": seq_property(),
-    "C08": seq_property(),
-    "C09": seq_property(),
-    "C10": seq_property(),
-    "C11": seq_property(),
-    "C12": seq_property(),
-    "C13": seq_property(),
-    "C14": seq_property(),
-    "C15": seq_property(),
+    "C08": seq_loom_property(),
+    "C09": seq_loom_property(),
+    "C10": seq_loom_property(),
+    "C11": seq_loom_property(),
+    "C12": seq_loom_property(),
+    "C13": seq_loom_property(),
+    "C14": seq_loom_property(),
+    "C15": seq_loom_property(),
     "C16": type_property,
     "C17": seq_property(),
     "C18": seq_property(),
